@@ -30,9 +30,21 @@
    the pass.  [run_case] runs this interleaved semantics (a sequential
    history is the special case in which every call is [Atomic]).
 
+   Part 1c, threads: any number of threads, each with its own list of calls,
+   and a schedule (which thread moves next, at the granularity of Part 1b: a
+   call of digest() is one step for taking its items plus one step per
+   digester call, every other call is one step - its single critical
+   section).  [run_case] runs this on the schedules the deterministic
+   scheduler of the harness produced with real threads.
+
+   Part 1d, the threshold reassigned at run time: auto_digest_threshold is a
+   public attribute; a history may assign to it between two calls (SetThr).
+
    Part 2, lock discipline: call-graph type filled in by the translator
-   (coq/gen/Gen_C13.v), decidable checks, and a one-lock abstract machine. *)
-From Coq Require Import ZArith List Bool String.
+   (coq/gen/Gen_C13.v), decidable checks (no self-deadlock, one lock, no
+   unbounded loop / recursion, one critical section per call), and a one-lock
+   abstract machine. *)
+From Coq Require Import ZArith List Bool String Ascii.
 Import ListNotations.
 Open Scope Z_scope.
 
@@ -483,11 +495,167 @@ Fixpoint crun_obs (cfg : config) (cs : cstate) (ops : list cop) : list (list Z) 
       (cret_row r ++ cstate_row cfg cs') :: crun_obs cfg cs' rest
   end.
 
-Definition case := (config * list cop)%type.
+(* ====================================================================== *)
+(* Part 1c: threads                                                         *)
+
+(* Thread i (i = 0, 1, 2, ...) has a list of calls still to make, [nth i
+   t_progs].  The digest pass of thread i is labelled i.  When the scheduler
+   picks thread i:
+     - if its digest() call is in progress, the digester it is in returns /
+       raises (PassStep i);
+     - otherwise it makes its next call: digest(k) takes its items under the
+       lock (PassBegin i k) - the thread is then inside its first digester, or
+       has returned if there was nothing to take -; any other call is ONE
+       step, its critical section (Atomic);
+     - a thread with nothing left does nothing (not a call: CBad).
+   A thread is never blocked in this model: the only blocking operation of the
+   class is the acquisition of self._lock, critical sections are atomic steps,
+   and no step waits for another thread. *)
+
+Record tstate := mkT { t_cs : cstate; t_progs : list (list op) }.
+
+Fixpoint set_nth {A : Type} (i : nat) (x : A) (l : list A) : list A :=
+  match l, i with
+  | [], _ => []
+  | _ :: r, O => x :: r
+  | y :: r, S j => y :: set_nth j x r
+  end.
+
+Definition in_pass (ts : tstate) (i : nat) : bool :=
+  match find_pass (Z.of_nat i) (c_open (t_cs ts)) with Some _ => true | None => false end.
+
+Definition tstep (cfg : config) (ts : tstate) (i : nat) : tstate * cret :=
+  if in_pass ts i then
+    let '(cs', r) := cpstep cfg (Z.of_nat i) (t_cs ts) in (mkT cs' (t_progs ts), r)
+  else
+    match nth i (t_progs ts) [] with
+    | [] => (ts, CBad)
+    | o :: rest =>
+        let '(cs', r) := match o with
+                         | DigestOp k => cbegin cfg (Z.of_nat i) k (t_cs ts)
+                         | _ => catomic cfg o (t_cs ts)
+                         end in
+        (mkT cs' (set_nth i rest (t_progs ts)), r)
+    end.
+
+Definition trun (cfg : config) (ts : tstate) (sched : list nat) : tstate :=
+  fold_left (fun ts i => fst (tstep cfg ts i)) sched ts.
+
+(* thread i has something left to do *)
+Definition busy (ts : tstate) (i : nat) : bool :=
+  in_pass ts i || nonempty (nth i (t_progs ts) []).
+
+Definition all_done (ts : tstate) : bool :=
+  forallb (fun p => negb (nonempty p)) (t_progs ts) && negb (nonempty (c_open (t_cs ts))).
+
+Definition is_ingest_op (o : op) : bool :=
+  match o with Ingest _ _ _ | IngestError _ | IngestSensitive _ => true | _ => false end.
+
+(* an upper bound on the number of steps still to come, whatever the schedule:
+   calls not yet made + ingests not yet made (each adds at most one item that a
+   later digest() has to hand to a digester) + items queued + items in flight *)
+Definition work (ts : tstate) : nat :=
+  (list_sum (map (fun p => List.length p + List.length (filter is_ingest_op p)) (t_progs ts))
+   + List.length (queue (c_base (t_cs ts))) + List.length (inflight (t_cs ts)))%nat.
+
+(* the steps of a schedule in which the scheduled thread had something to do *)
+Fixpoint real_steps (cfg : config) (ts : tstate) (sched : list nat) : nat :=
+  match sched with
+  | [] => O
+  | i :: rest => ((if busy ts i then 1 else 0) + real_steps cfg (fst (tstep cfg ts i)) rest)%nat
+  end.
+
+(* ====================================================================== *)
+(* Part 1d: the threshold changed at run time                               *)
+
+(* auto_digest_threshold is a plain public attribute: a caller may assign to it
+   between two calls.  A reconfigured history is a history in which such
+   assignments occur; every call runs under the configuration in force when it
+   is made.  (max_queue_size is an attribute too, but lowering it below the
+   current queue length trivially breaks the bound the property states for a
+   configuration, so only the threshold is varied.) *)
+Definition set_thr (cfg : config) (t : Z) : config :=
+  mkConfig (max_queue cfg) t (retention cfg) (has_cb cfg).
+
+Inductive rop :=
+| ROp (o : cop)
+| SetThr (t : Z).      (* lysosome.auto_digest_threshold = t *)
+
+Definition rstep (cfg : config) (cs : cstate) (o : rop) : config * cstate * cret :=
+  match o with
+  | ROp o' => let '(cs', r) := cstep cfg cs o' in (cfg, cs', r)
+  | SetThr t => (set_thr cfg t, cs, CRet RNone)
+  end.
+
+Definition rrun_from (cfg : config) (cs : cstate) (ops : list rop) : config * cstate :=
+  fold_left (fun st o => fst (rstep (fst st) (snd st) o)) ops (cfg, cs).
+
+Definition rrun (cfg : config) (ops : list rop) : config * cstate := rrun_from cfg cinit ops.
+
+Fixpoint rrun_obs (cfg : config) (cs : cstate) (ops : list rop) : list (list Z) :=
+  match ops with
+  | [] => []
+  | o :: rest =>
+      let '(cfg', cs', r) := rstep cfg cs o in
+      (cret_row r ++ cstate_row cfg' cs') :: rrun_obs cfg' cs' rest
+  end.
+
+(* ---- correspondence ---------------------------------------------------- *)
+
+(* what is protected by the lock: observed by the harness when the critical
+   section of the step ends (for a digester step: when it happens) *)
+Definition qrow (cs : cstate) : list Z :=
+  let s := c_base cs in
+  [qlen s; n_ingested s] ++ map (by_type s) all_types ++ ids (queue s).
+
+Fixpoint trun_obs (cfg : config) (ts : tstate) (sched : list nat) : list (list Z) :=
+  match sched with
+  | [] => []
+  | i :: rest =>
+      let '(ts', r) := tstep cfg ts i in
+      (cret_row r ++ [Z.of_nat i] ++ qrow (t_cs ts')) :: trun_obs cfg ts' rest
+  end.
+
+Fixpoint insert_sorted (x : Z) (l : list Z) : list Z :=
+  match l with
+  | [] => [x]
+  | y :: r => if x <=? y then x :: l else y :: insert_sorted x r
+  end.
+Definition sort_z (l : list Z) : list Z := fold_right insert_sorted [] l.
+
+(* the quiescent state after the threads have finished: the counters, the keys
+   of the recycling bin (which call wrote a key last is decided between two
+   source lines of digest(), below the granularity of the schedule), the
+   on_toxic log as a set, the ghost counts, and what is left to do (nothing) *)
+Definition final_row (ts : tstate) : list Z :=
+  let cs := t_cs ts in
+  let s := c_base cs in
+  [qlen s; n_ingested s; n_digested s; n_recycled s]
+    ++ map (by_type s) all_types ++ [qlen s] ++ ids (queue s)
+    ++ [lenZ (bin s)] ++ map fst (bin s)
+    ++ [lenZ (toxlog s)] ++ sort_z (toxlog s)
+    ++ [lenZ (flat_map (fun d => d_errors (snd d)) (c_done cs));
+        nfate AutoDiscarded s + nfate EmergFail s; nfate Expired s]
+    ++ [lenZ (c_open cs); Z.of_nat (list_sum (map (@List.length op) (t_progs ts)))].
+
+(* a case: configuration, history [pre] (of the main thread, and of passes it
+   drives; the threshold may be reassigned in between), and - for the runs of
+   real threads under the scheduler of the harness - the programs of the
+   threads and the schedule that was followed; [progs] = [] is a history
+   without scheduler threads *)
+Definition case := (config * list rop * list (list op) * list Z)%type.
 
 Definition run_case (c : case) : list (list Z) :=
-  let '(cfg, ops) := c in
-  [max_queue cfg; auto_thr cfg; retention cfg; b2z (has_cb cfg)] :: crun_obs cfg cinit ops.
+  let '(cfg, pre, progs, sched) := c in
+  [max_queue cfg; auto_thr cfg; retention cfg; b2z (has_cb cfg)] ::
+  match progs with
+  | [] => rrun_obs cfg cinit pre
+  | _ :: _ =>
+      let st := rrun cfg pre in
+      let ts0 := mkT (snd st) progs in
+      let sch := map Z.to_nat sched in
+      trun_obs (fst st) ts0 sch ++ [final_row (trun (fst st) ts0 sch)]
+  end.
 
 (* ====================================================================== *)
 (* Part 2: lock discipline                                                  *)
@@ -504,7 +672,10 @@ Record minfo := mkM {
   m_calls_locked : list string;     (* self.m() calls inside `with self._lock:` *)
   m_calls_unlocked : list string;   (* self.m() calls outside it *)
   m_cbs_locked : list string;       (* callbacks / calls on other objects inside it *)
-  m_cbs_unlocked : list string }.
+  m_cbs_unlocked : list string;
+  m_sections : Z;                   (* separate (not nested) `with self._lock:` blocks in the body *)
+  m_loops : list string;            (* loops the translator cannot bound: `while`, `for` over what the body changes *)
+  m_qwrites_unlocked : bool }.      (* assigns / mutates self._queue outside every `with self._lock:` of its body *)
 
 Definition callgraph := list minfo.
 
@@ -551,6 +722,60 @@ Definition no_self_deadlock (k : lockkind) (g : callgraph) : bool :=
 Definition single_lock (g : callgraph) : bool :=
   forallb (fun mi => forallb is_self (m_locks mi)) g.
 
+(* ---- every call is a finite program ----------------------------------- *)
+
+(* [compile] (below) unfolds the self-calls of a method with fuel.  [fits g
+   fuel m]: the unfolding of m never runs out of that fuel, i.e. the part of the
+   call graph reachable from m is acyclic and at most [fuel] deep. *)
+Fixpoint fits (g : callgraph) (fuel : nat) (m : string) : bool :=
+  match fuel with
+  | O => false
+  | S f =>
+      match lookup g m with
+      | None => true
+      | Some mi => forallb (fits g f) (all_calls mi)
+      end
+  end.
+
+(* no method has a loop whose iteration count is not bounded by the size of a
+   list it was given, and no method is (mutually) recursive: a call executes a
+   finite sequence of lock operations and steps *)
+Definition bounded_calls (g : callgraph) : bool :=
+  forallb (fun mi => negb (nonempty (m_loops mi)) && fits g (S (List.length g)) (m_name mi)) g.
+
+(* ---- every call has one critical section ------------------------------ *)
+
+(* outermost critical sections of a call of m, self-calls unfolded *)
+Fixpoint secs (g : callgraph) (fuel : nat) (m : string) : nat :=
+  match fuel with
+  | O => O
+  | S f =>
+      match lookup g m with
+      | None => O
+      | Some mi =>
+          if acquires mi
+          then S (list_sum (map (secs g f) (m_calls_unlocked mi)))
+          else list_sum (map (secs g f) (all_calls mi))
+      end
+  end.
+
+Definition is_private (m : string) : bool :=
+  match m with String c _ => Ascii.eqb c "_"%char | EmptyString => false end.
+
+(* m is only ever called from inside a `with self._lock:` *)
+Definition lock_context_only (g : callgraph) (m : string) : bool :=
+  is_private m && forallb (fun mi => negb (existsb (String.eqb m) (m_calls_unlocked mi))) g.
+
+(* what makes "one call = one atomic step on the queue" (Atomic / PassBegin in
+   Part 1b, 1c) the right granularity: the body of a method has at most one
+   `with self._lock:` block, a call with everything it calls goes through at
+   most one outermost critical section, and the queue is only written inside
+   one *)
+Definition atomic_calls (g : callgraph) : bool :=
+  forallb (fun mi => (m_sections mi <=? 1)
+                     && Nat.leb (secs g (S (List.length g)) (m_name mi)) 1
+                     && (negb (m_qwrites_unlocked mi) || lock_context_only g (m_name mi))) g.
+
 (* callbacks that run while the lock is held (reported in the evidence) *)
 Definition cbs_under_lock (g : callgraph) : list (string * string) :=
   flat_map (fun mi => map (fun c => (m_name mi, c)) (m_cbs_locked mi)) g.
@@ -589,6 +814,15 @@ Fixpoint wb (d : nat) (p : list instr) : bool :=
   | Step :: r => wb d r
   end.
 
+(* outermost critical sections of a program, from hold depth d *)
+Fixpoint osec (d : nat) (p : list instr) : nat :=
+  match p with
+  | [] => O
+  | Acq :: r => ((match d with O => 1 | S _ => 0 end) + osec (S d) r)%nat
+  | Rel :: r => osec (Nat.pred d) r
+  | Step :: r => osec d r
+  end.
+
 (* ... and never acquires while holding *)
 Fixpoint flat (d : nat) (p : list instr) : bool :=
   match p with
@@ -623,3 +857,12 @@ Inductive mreach (k : lockkind) (m0 : mstate) : mstate -> Prop :=
 | MRS : forall m m', mreach k m0 m -> mstep k m m' -> mreach k m0 m'.
 
 Definition minit (f : nat -> list instr) : mstate := mkMS f None 0.
+
+(* n steps of the machine *)
+Inductive msteps (k : lockkind) : nat -> mstate -> mstate -> Prop :=
+| MS0 : forall m, msteps k O m m
+| MSS : forall n m m' m'', msteps k n m m' -> mstep k m' m'' -> msteps k (S n) m m''.
+
+(* instructions the first N threads still have to execute *)
+Definition code_left (N : nat) (m : mstate) : nat :=
+  list_sum (map (fun i => List.length (m_code m i)) (seq 0 N)).
